@@ -78,23 +78,20 @@ def run_format(h, cases):
     res = []
     for o in outs:
         parts = o.split(" ")
-        if len(parts) != 3 or not parts[0].startswith("L:"):
+        if len(parts) != 2 or not parts[0].startswith("L:"):
             res.append(o or "EMPTY")
             continue
         lf = parts[0].split(":")
-        cf = parts[1].split(":")
         res.append({"L": lf[1], "Ltext": bytes.fromhex(lf[2]).decode("utf-8", "replace"),
-                    "C": cf[1], "Ctext": bytes.fromhex(cf[2]).decode("utf-8", "replace"),
-                    "EV": parts[2].split(":")[1]})
+                    "EV": parts[1].split(":")[1]})
     return res
 
 
 def format_classes(src, r):
     """known-finding classes of a FORMAT case that are decided at the layout level"""
     cl = set()
-    for t in (r["Ltext"], r["Ctext"]):
-        if if_newline(t):
-            cl.add("if-newline")
+    if if_newline(r["Ltext"]):
+        cl.add("if-newline")
     return cl
 
 
@@ -126,7 +123,7 @@ def probe(h, cls):
     r = run_format(h, [(src, w)])[0]
     if isinstance(r, str):
         return True
-    return r["L"] != "SAME" or r["C"] != "SAME"
+    return r["L"] != "SAME"
 
 
 def modelled_numbers(term):
@@ -175,7 +172,7 @@ def replay_case(h, cli, path):
     else:
         r = run_format(h, [(src, w)])[0]
         print("format round trip (width %s):" % (w or "default"), r)
-        bad = isinstance(r, str) or r["L"] != "SAME" or r["C"] != "SAME" or r["EV"] == "diff"
+        bad = isinstance(r, str) or r["L"] != "SAME" or r["EV"] == "diff"
         if rp.get("driver") == "cli-binary":
             with tempfile.TemporaryDirectory(dir=c.BUILD) as td:
                 t, rc = cli_format(cli, src, td, 0)
@@ -238,7 +235,7 @@ def main(argv):
             if not modelled_numbers(st["term"]):
                 num_skipped += 1
                 continue
-            exprs.append("show_print %s %s" % (coq_fx(flags), st["term"]))
+            exprs.append("show_print %s %d%%nat %s" % (coq_fx(flags), j, st["term"]))
             index.append((i, j))
     try:
         model = c.coq_eval_batch(REQ, "", exprs, "c07print")
@@ -323,7 +320,7 @@ def main(argv):
     fr = run_format(h, fcases)
     n_eval += len(fcases)
     # classes of the inputs (from the AST, by the harness twin of Printer.v known_classes)
-    need_cls = [i for i, r in enumerate(fr) if not isinstance(r, str) and (r["L"] != "SAME" or r["C"] != "SAME" or r["EV"] == "diff")]
+    need_cls = [i for i, r in enumerate(fr) if not isinstance(r, str) and (r["L"] != "SAME" or r["EV"] == "diff")]
     cls_pr = run_print(h, [fcases[i][0] for i in need_cls], comments=True)
     do_tr = has_do_trailing_comment(h, [fcases[i][0] for i in need_cls])
     verdicts = {}
@@ -333,7 +330,6 @@ def main(argv):
             verdicts[r[:8]] = verdicts.get(r[:8], 0) + 1
         else:
             verdicts["L:" + r["L"]] = verdicts.get("L:" + r["L"], 0) + 1
-            verdicts["C:" + r["C"]] = verdicts.get("C:" + r["C"], 0) + 1
             ev_same += r["EV"] == "same"
             ev_diff += r["EV"] == "diff"
             distinct.add(r["Ltext"])
@@ -349,14 +345,15 @@ def main(argv):
         if r["L"] in ("EMPTY",):
             continue
         classify_and_report("format", src, w, cl,
-                            {"library_loop": r["L"], "cli_loop": r["C"], "evaluation": r["EV"],
+                            {"library_loop": r["L"], "evaluation": r["EV"],
                              "formatted": r["Ltext"][:2000]}, "format_expr")
     for i, r in enumerate(fr):
         if isinstance(r, str) and (r.startswith("PANIC") or r.startswith("ABORT")):
             classify_and_report("format", fcases[i][0], fcases[i][1], [], r, "format_expr")
     # (c) the real binary on a sample (one process per file)
-    ncli = 150 if tier == "quick" else 1500
-    cli_cases = [fam[rng.below(len(fam))] for _ in range(ncli // 3)] + progs[: ncli // 3] + evprogs[: ncli // 3]
+    ncli = 1200 if tier == "quick" else 12000
+    cli_cases = ([fam[rng.below(len(fam))] for _ in range(ncli // 4)] + fam3[: ncli // 4] + progs[: ncli // 4]
+                 + evprogs[: ncli // 4])
     cli_ok = cli_bad = cli_rej = 0
     os.makedirs(c.BUILD, exist_ok=True)
     with tempfile.TemporaryDirectory(dir=c.BUILD) as td:
@@ -367,13 +364,8 @@ def main(argv):
         pairs = [(s, t) for s, t in zip(cli_cases, outs) if t is not None]
         cli_rej = len(cli_cases) - len(pairs)
         eqs = c.harness_lines_resilient(h, "ast07eq", ["%s\t%s" % (hx(s), hx(t)) for s, t in pairs])
-        # the mirrored loop must produce the same text as the binary
-        mirror = run_format(h, [(s, 0) for s, _ in pairs])
         bad_idx = []
-        for k, ((s, t), v, m) in enumerate(zip(pairs, eqs, mirror)):
-            if not isinstance(m, str) and m["Ctext"] != t:
-                res.tie_broken("the harness mirror of the --format statement loop differs from the blots binary",
-                               "source %r: binary %r mirror %r" % (s, t[:300], m["Ctext"][:300]))
+        for k, v in enumerate(eqs):
             if v == "SAME":
                 cli_ok += 1
             else:
